@@ -17,7 +17,8 @@ def _times(n):
 
 def _dirs(rng, nd, order):
     dd = 360.0 / nd
-    d = float(rng.choice([0.0, dd / 2, rng.uniform(0, dd)])) + dd * np.arange(nd)
+    # first label 0, half a bin, anywhere - or one bin, i.e. north written as 360 (2 pi in radian conventions)
+    d = float(rng.choice([0.0, dd / 2, rng.uniform(0, dd), dd])) + dd * np.arange(nd)
     if order == "descending":
         d = d[::-1].copy()
     elif order == "rolled":
@@ -110,7 +111,7 @@ def ncswan(rng, with_wind=True, with_depth=True, lonlat_time=False, order=None, 
         rad = np.where(rad > np.pi, rad - 2 * np.pi, rad)    # SWAN writes directions in (-pi, pi]
     ds = xr.Dataset()
     ds["density"] = (("time", "points", "frequency", "direction"), E * R2D)     # m2/Hz/rad
-    ds = ds.assign_coords(time=_times(nt), frequency=f, direction=rad)
+    ds = ds.assign_coords(time=_times(nt), frequency=f, direction=rad.astype("float32") if rng.random() < 0.4 else rad)
     lon, lat = rng.uniform(0, 360, ns), rng.uniform(-60, 60, ns)
     if lonlat_time:
         ds["longitude"] = (("time", "points"), np.tile(lon, (nt, 1)))
@@ -143,7 +144,7 @@ def wwm(rng, with_wind=True, with_depth=True, order=None):
     ds = xr.Dataset()
     ds["AC"] = (("ocean_time", "nbstation", "nfreq", "ndir"), AC)
     ds["SPSIG"] = (("nfreq",), sig)
-    ds["SPDIR"] = (("ndir",), np.radians(th_from))
+    ds["SPDIR"] = (("ndir",), np.radians(th_from).astype("float32") if rng.random() < 0.4 else np.radians(th_from))
     ds = ds.assign_coords(ocean_time=_times(nt))
     lon, lat = rng.uniform(-180, 180, ns), rng.uniform(-60, 60, ns)
     ds["lon"] = (("nbstation",), lon)
@@ -180,8 +181,12 @@ def era5(rng, missing=True):
         d2fd = np.where(E > 0, np.log10(np.where(E > 0, E, 1.0) * R2D), np.nan)      # log10 of m2 s rad-1, NaN = missing
     ds = xr.Dataset()
     ds["d2fd"] = (("time", "frequency", "direction", "latitude", "longitude"), np.moveaxis(d2fd, (3, 4), (1, 2)).astype("float32"))
-    ds = ds.assign_coords(time=_times(nt), frequency=np.arange(1, 31), direction=np.arange(1, 25),
-                          latitude=40.0 - 0.5 * np.arange(nlat), longitude=10.0 + 0.5 * np.arange(nlon))
+    ds = ds.assign_coords(time=_times(nt), latitude=40.0 - 0.5 * np.arange(nlat), longitude=10.0 + 0.5 * np.arange(nlon))
+    # the spectral dims carry bin numbers, not physical values: 1-based as ECMWF writes them, 0-based, or none at all
+    lab = str(rng.choice(["one_based", "one_based", "zero_based", "unlabelled"]))
+    if lab != "unlabelled":
+        o = 1 if lab == "one_based" else 0
+        ds = ds.assign_coords(frequency=np.arange(o, 30 + o), direction=np.arange(o, 24 + o))
     vals = np.moveaxis(ds.d2fd.values.astype("float64"), (1, 2), (3, 4))
     Et = np.where(np.isnan(vals), 0.0, 10 ** vals / R2D)
     truth = {"freq": f, "dir": th_from, "E": Et, "lead": ["time", "lat", "lon"], "dd": 15.0}
